@@ -1,2 +1,2 @@
--- C03 property theorems (to be written)
-import Nq.Basic
+-- C03 property theorems (in progress)
+import Nq.Daemon
